@@ -9,6 +9,7 @@ package main
 import (
 	"bufio"
 	"bytes"
+	"compress/gzip"
 	"os"
 	"path/filepath"
 	"context"
@@ -34,6 +35,7 @@ type e2eScript struct {
 	ct      string
 	respAE  string
 	respCE  string
+	gzip    bool // the segments are a gzip stream of the document; Content-Encoding: gzip
 	segs    [][]byte
 	framing string // cl | chunked | close   (raw h1 origin)
 	gap     time.Duration
@@ -127,6 +129,9 @@ func (o *e2eOrigins) handler(w http.ResponseWriter, r *http.Request) {
 	if s.respCE != "" {
 		w.Header().Set("Content-Encoding", s.respCE)
 	}
+	if s.gzip {
+		w.Header().Set("Content-Encoding", "gzip")
+	}
 	w.WriteHeader(200)
 	f, _ := w.(http.Flusher)
 	for _, seg := range s.segs {
@@ -178,6 +183,9 @@ func (o *e2eOrigins) serveRaw(c net.Conn) {
 	}
 	if s.respCE != "" {
 		head += "Content-Encoding: " + s.respCE + "\r\n"
+	}
+	if s.gzip {
+		head += "Content-Encoding: gzip\r\n"
 	}
 	switch s.framing {
 	case "cl":
@@ -288,7 +296,7 @@ func driveE2E(u *unitCase) (o obs) {
 	if i := strings.Index(u.Stack, "-"); i > 0 {
 		framing = u.Stack[i+1:]
 	}
-	id := theOrigins.add(&e2eScript{ct: u.Doc.CT, respAE: u.Set.RespAE, respCE: u.Set.RespCE, segs: u.Chunks, framing: framing, gap: time.Duration(u.GapMS) * time.Millisecond})
+	id := theOrigins.add(&e2eScript{ct: u.Doc.CT, respAE: u.Set.RespAE, respCE: u.Set.RespCE, gzip: u.Gzip, segs: u.Chunks, framing: framing, gap: time.Duration(u.GapMS) * time.Millisecond})
 	done := make(chan obs, 1)
 	go func() {
 		var o obs
@@ -449,8 +457,22 @@ func (w *world) endToEnd() {
 		default:
 			segs = splitAt(d.Body, []int{hk.Pick(rnd, io), hk.Pick(rnd, io) + rnd.Intn(9)})
 		}
+		gz := i%7 == 3 && sets[i%len(sets)].RespCE == ""
+		if gz {
+			// the origin serves the document gzip-compressed; the transport decompresses (and removes
+			// Content-Encoding), THEN the charset stage runs on the decompressed text
+			var zb bytes.Buffer
+			zw := gzip.NewWriter(&zb)
+			zw.Write(d.Body)
+			zw.Close()
+			z := zb.Bytes()
+			segs = splitAt(z, []int{rnd.Intn(len(z) + 1), rnd.Intn(len(z) + 1)})
+			if len(segs[1]) == 0 || len(segs[0]) > len(z) {
+				segs = [][]byte{z}
+			}
+		}
 		hl := []string{"bytes", "buffer", "writer", "string", "into", "file"}[(i/3)%6]
-		if st := sets[i%len(sets)]; hl == "into" && (st.Disable || st.RespCE != "" || st.Sel != "default") {
+		if st := sets[i%len(sets)]; hl == "into" && (gz || st.Disable || st.RespCE != "" || st.Sel != "default") {
 			hl = "string" // Into on an undecoded body would go through encoding/json's own U+FFFD substitution
 		}
 		if i%3 == 2 && hl == "into" {
@@ -464,7 +486,7 @@ func (w *world) endToEnd() {
 			}
 		}
 		u := &unitCase{Kind: "e2e", Doc: d, Set: sets[i%len(sets)], Chunks: segs, Pattern: hk.Pick(rnd, sizePatterns[3:]),
-			BufMode: hk.Pick(rnd, []string{"zero", "stale-meta", "reuse"}), FailAt: -1, Stack: e2eStacks[i%len(e2eStacks)], GapMS: 6, HighLevel: i%3 == 2, HLMode: hl}
+			BufMode: hk.Pick(rnd, []string{"zero", "stale-meta", "reuse"}), FailAt: -1, Stack: e2eStacks[i%len(e2eStacks)], GapMS: 6, HighLevel: i%3 == 2, HLMode: hl, Gzip: gz}
 		w.eval(u, len(d.Body) <= 1600)
 	}
 }
